@@ -107,7 +107,7 @@ func init() {
 		Floor: 50,
 		Bound: func(tier string) string {
 			k, e := coreK(tier)
-			return fmt.Sprintf("k=%d focus units, %d elements per slice, all permutations at every struct visit (≤3 fields quick, ≤4 thorough)", k, e)
+			return thoroughPrefix(tier) + fmt.Sprintf("k=%d focus units, %d elements per slice, all permutations at every struct visit (≤3 fields quick, ≤4 thorough)", k, e)
 		},
 		Assumptions: []string{
 			"every range-over-map site in zog is hooked (list in coverage.instrumentation); once hooked, insertion order of schema/input maps cannot influence anything else",
